@@ -37,6 +37,8 @@ hx.put(hd, "_hash_file", lambda p, chunk_size=8192: p.read_text())
 KNOWN = set(x for x in os.environ.get("XH_KNOWN", "").split(",") if x)
 PIN = int(os.environ.get("XH_STRUCT", "-1"))
 PIN_IDS = int(os.environ.get("XH_IDS", "-1"))
+# second item: quick = none / plain / dated / irregular spacing / both; thorough = every item form
+B_MENU = list(range(-1, len(cm.ITEMS))) if os.environ.get("XH_MENUS") == "thorough" else [-1, 0, 3, 7, 10]
 
 
 def compile_text(text, path):
@@ -119,7 +121,7 @@ def kf_excluded(a_i, b_i):
 def create(struct_i: int, a_i: int, a_cont: int, b_i: int, ids_i: int) -> bool:
     """
     pre: 0 <= struct_i < len(cm.STRUCTS) and 0 <= a_i < len(cm.ITEMS) and 0 <= a_cont < len(cm.CONTS)
-    pre: -1 <= b_i < len(cm.ITEMS) and 0 <= ids_i < len(cm.NEXT_IDS)
+    pre: b_i in B_MENU and 0 <= ids_i < len(cm.NEXT_IDS)
     pre: PIN < 0 or struct_i == PIN
     pre: PIN_IDS < 0 or ids_i == PIN_IDS
     post: _
